@@ -347,14 +347,23 @@ inline std::string compare_snapshot(const std::string &name, const std::string &
 }
 /// seed independent text that identifies the content of a snapshot (HDF5:
 /// canonical lines without the masked attribute; ASCII: the bytes)
-inline std::string content_key(const std::string &name, const std::string &bytes) {
+/// the attribute of the Gadget snapshot's Parameters group that repeats the
+/// seed of the parameter file: two runs with different seeds differ there even
+/// if the seed had no effect on the photons, so every comparison BETWEEN seeds
+/// has to leave it out (it stays part of the same-seed comparisons)
+inline bool seed_parameter_line(const std::string &line) {
+  return line.find(":random seed ") != std::string::npos;
+}
+inline std::string content_key(const std::string &name, const std::string &bytes, bool mask_seed_parameter = false) {
   if (!is_hdf5(name))
     return bytes;
   Canon cc = canon_hdf5(bytes);
   std::string key;
   for (auto &l : cc.lines)
-    if (!masked(l))
+    if (!masked(l) && !(mask_seed_parameter && seed_parameter_line(l)))
       key += l + "\n";
+  if (!cc.error.empty())
+    key += "ERROR " + cc.error + "\n";
   return key;
 }
 
